@@ -768,6 +768,19 @@ func (x *Exec) loopSpecCtx(st *State, hdr *ssa.BasicBlock, phiVals map[*ssa.Phi]
 			}
 			return Value{}, false
 		}
+		if name == "$rangeslice" {
+			// the slice value a range loop iterates over (evaluated once, before the loop)
+			if iff, ok := hdr.Instrs[len(hdr.Instrs)-1].(*ssa.If); ok {
+				if b, ok := iff.Cond.(*ssa.BinOp); ok && b.Op == token.LSS {
+					if c, ok := b.Y.(*ssa.Call); ok && len(c.Call.Args) == 1 {
+						if bi, ok := c.Call.Value.(*ssa.Builtin); ok && bi.Name() == "len" {
+							return x.get(st, c.Call.Args[0]), true
+						}
+					}
+				}
+			}
+			return Value{}, false
+		}
 		if name == "$rangepos" {
 			for _, ins := range hdr.Instrs {
 				if nx, ok := ins.(*ssa.Next); ok {
